@@ -41,7 +41,7 @@ func (fx *FnCtx) paramValue(name string, t types.Type, nullable bool) Value {
 		if nullable {
 			lo = tc.IdxNum(0)
 		}
-		fx.assume(And(tc.IdxLe(lo, ref), tc.IdxLt(ref, fx.root.entryNAlloc)))
+		fx.assume(And(tc.IdxLe(lo, ref), tc.validRef(ref, fx.root.entryNAlloc)))
 		return Value{T: t, L: []*Term{ref}}
 	case *types.Signature:
 		fx.fail("function-typed parameter %s is outside the model", name)
@@ -89,9 +89,9 @@ func (fx *FnCtx) shapeFacts(v Value, t types.Type, off int) {
 			fx.shapeFacts(v, u.Field(i).Type(), off+fo)
 		}
 	case *types.Pointer, *types.Map, *types.Chan:
-		fx.assume(And(tc.IdxLe(tc.IdxNum(0), v.L[off]), tc.IdxLt(v.L[off], fx.root.entryNAlloc)))
+		fx.assume(And(tc.IdxLe(tc.IdxNum(0), v.L[off]), tc.validRef(v.L[off], fx.root.entryNAlloc)))
 	case *types.Interface:
-		fx.assume(And(tc.IdxLe(tc.IdxNum(0), v.L[off]), tc.IdxLe(tc.IdxNum(0), v.L[off+1]), tc.IdxLt(v.L[off+1], fx.root.entryNAlloc),
+		fx.assume(And(tc.IdxLe(tc.IdxNum(0), v.L[off]), tc.IdxLe(tc.IdxNum(0), v.L[off+1]), tc.validRef(v.L[off+1], fx.root.entryNAlloc),
 			Implies(Eq(v.L[off], tc.IdxNum(0)), Eq(v.L[off+1], tc.IdxNum(0)))))
 	}
 }
@@ -111,6 +111,12 @@ func (v *Verifier) VerifyFunctionBounded(fn *ssa.Function, fc *FuncContract, bou
 	short := pkg[strings.LastIndex(pkg, "/")+1:] + "." + name
 	root = v.newRoot(short, mode)
 	root.boundedK = boundedK
+	v.tcs[mode].relaxRefs = false
+	for _, e := range v.cs.Embedded {
+		if strings.HasPrefix(e, pkg+".") {
+			v.tcs[mode].relaxRefs = true
+		}
+	}
 	fx := &FnCtx{V: v, tc: v.tcs[mode], root: root, fn: fn, fc: fc, prefix: short,
 		vals: map[ssa.Value]Value{}, params: map[string]Value{}, topLevel: true, regions: map[*ssa.Alloc]*Region{}}
 	root.top = fx
@@ -250,6 +256,21 @@ func (v *Verifier) VerifyFunctionBounded(fn *ssa.Function, fc *FuncContract, bou
 		cond := fx.evalBool(envPost, c.Expr)
 		fx.addObl(short+":"+c.Label, "ensures", reachR, cond, c.Props, c, "postcondition: "+c.Src)
 	}
+	// ghost frame: lock states not named in the modifies clause are the same at exit as at entry
+	if g1, ok := stR.Heaps["G:lock"]; ok {
+		g0 := fx.ghostHeap(fx.entry, "G:lock")
+		if g1 != g0 {
+			r := BoundVar("r", tc.IdxSort())
+			inFrame := False
+			for _, it := range root.frame {
+				if it.Kind == PGhost {
+					inFrame = Or(inFrame, Eq(r, it.Ref))
+				}
+			}
+			cond := Forall([]*Term{r}, Implies(Not(inFrame), Eq(Select(g1, r), Select(g0, r))))
+			fx.addObl(short+":lockframe", "frame", reachR, cond, nil, nil, "every mutex not named in the modifies clause is in the same state at exit as at entry")
+		}
+	}
 	return root, nil
 }
 
@@ -292,6 +313,8 @@ func (fx *FnCtx) contractCallWithNames(st *State, pc *Term, fc *FuncContract, na
 	// callee frame within caller frame
 	for _, it := range items {
 		switch it.Kind {
+		case PMap:
+			fx.mapFrameCheck(st, pc, it.Root, it.Ref)
 		case PObj:
 			n := it.N
 			p := &PtrInfo{Kind: PObj, Ref: it.Ref, Root: it.Root, Off: it.Off, Typ: it.Root}
@@ -313,7 +336,7 @@ func (fx *FnCtx) contractCallWithNames(st *State, pc *Term, fc *FuncContract, na
 	fx.assume(And(tc.IdxLe(st.NAlloc, nn), tc.IdxLe(nn, tc.IdxNum(1<<61))))
 	st.NAlloc = nn
 	for _, r := range fx.root.pendingRefs {
-		fx.assume(tc.IdxLt(r, nn))
+		fx.assume(tc.validRef(r, nn))
 	}
 	fx.root.pendingRefs = nil
 	res, facts := tc.FreshValue(rt, "ret_"+fc.Name)
@@ -322,8 +345,11 @@ func (fx *FnCtx) contractCallWithNames(st *State, pc *Term, fc *FuncContract, na
 	}
 	// references in results are valid
 	for i, lf := range tc.Layout(rt).Leaves {
-		if (lf.Kind == "id" || lf.Kind == "ref") && lf.Sort.Kind != SArray {
+		if lf.Kind == "id" && lf.Sort.Kind != SArray {
 			fx.assume(tc.IdxLt(res.L[i], nn))
+		}
+		if lf.Kind == "ref" && lf.Sort.Kind != SArray {
+			fx.assume(tc.validRef(res.L[i], nn))
 		}
 	}
 	post := &Env{fx: fx, st: st, vars: pre.vars, pkg: pkg, oldEnv: &preEnv, preNAlloc: preSt.NAlloc}
@@ -353,8 +379,10 @@ func (fx *FnCtx) contractCallWithNames(st *State, pc *Term, fc *FuncContract, na
 }
 
 func (fx *FnCtx) frameCheckItem(st *State, pc *Term, p *PtrInfo, it FrameItem) {
-	tc := fx.tc
-	ok := tc.IdxLe(fx.root.entryNAlloc, it.Ref)
+	ok := False
+	if it.Ref != nil {
+		ok = fx.freshRef(it.Ref)
+	}
 	for _, mine := range fx.root.frame {
 		if mine.Kind != PObj || !types.Identical(mine.Root, it.Root) {
 			continue
@@ -362,7 +390,13 @@ func (fx *FnCtx) frameCheckItem(st *State, pc *Term, p *PtrInfo, it FrameItem) {
 		if mine.N != 0 && (it.N == 0 || !(mine.Off <= it.Off && it.Off+it.N <= mine.Off+mine.N)) {
 			continue
 		}
-		ok = Or(ok, Eq(it.Ref, mine.Ref))
+		if mine.Ref == nil {
+			ok = True
+			continue
+		}
+		if it.Ref != nil {
+			ok = Or(ok, Eq(it.Ref, mine.Ref))
+		}
 	}
 	fx.safety("frame", pc, ok, "callee's modifies frame lies within the caller's: "+it.Src)
 }
